@@ -32,15 +32,45 @@
 (*   "error_or_payload" an error or the original payload, never other data  *)
 (*   "nocrash"          anything but a crash (the property makes no claim   *)
 (*                      about the value)                                    *)
+(*   "samesize"         no error, as many bytes as the payload (the lossy   *)
+(*                      JPEG format: the property claims identity only for  *)
+(*                      lossless formats)                                   *)
+(*                                                                         *)
+(* Second pair of operations (api = "obj"): dvid.Serialize / Deserialize,   *)
+(* the gob OBJECT envelope.  It is the same envelope around the gob bytes   *)
+(* of the object, always read with decompression; "payload" then means "an  *)
+(* object equal to the original".  Its only user is the repo metadata.      *)
+(*                                                                         *)
+(* STORED VALUES.  UserFormats lists, for every user of the envelope that   *)
+(* the property anchors, the formats it writes with.  A finished behaviour  *)
+(* read with decompression is also the oracle for a GET of that user whose  *)
+(* STORED value carries the same damage: "payload" = the original answer,   *)
+(* "error" = an error answer (HTTP status >= 400, resp. a start-up error    *)
+(* for the repo metadata), "nocrash" = any answer, the server survives.     *)
+(* Label indices are written without a checksum: Inv_C15_IndexUndetected    *)
+(* records that detection cannot be claimed there.                          *)
 (***************************************************************************)
 EXTENDS Integers, Sequences, TLC, Json
 
-Comps          == {"none", "snappy", "lz4", "gzip"}
+Lossless       == {"none", "snappy", "lz4", "gzip"}
+Comps          == Lossless \cup {"jpeg"}      \* jpeg: lossy, the level is the row width chosen by the harness
+Apis           == {"data", "obj"}
+ObjClasses     == {"flat", "nested", "bytes"} \* gob objects: scalar fields / slices, maps and nested structs / mostly []byte
 GzipLevels     == {-1, 1, 6, 9}
 Levels(c)      == IF c = "gzip" THEN GzipLevels ELSE {-1}
 Checksums      == {"none", "crc32"}
 PayloadClasses == {"empty", "one", "incompressible", "compressible", "large"}
-Outcomes       == {"payload", "body", "empty", "error", "error_or_payload", "nocrash"}
+Outcomes       == {"payload", "body", "empty", "error", "error_or_payload", "nocrash", "samesize"}
+
+\* The users of the envelope named by the property and the <<compression, checksum>> they write with.
+Users == {"repo", "keyvalue", "imageblk", "labelblock", "labelindex"}
+UserApi(u) == IF u = "repo" THEN "obj" ELSE "data"
+UserFormats(u) ==
+    CASE u = "repo"       -> {<<"lz4", "crc32">>}               \* datastore/repo_local.go saveToStore
+      [] u = "labelindex" -> {<<"lz4", "none">>}                \* labelmap/labelidx.go putLabelIndex: dvid.NoChecksum
+      [] u = "keyvalue"   -> Lossless \X Checksums              \* the instance's Compression / Checksum settings
+      [] u = "labelblock" -> Lossless \X Checksums
+      [] u = "imageblk"   -> Comps \X Checksums
 
 \* arbitrary byte strings: first byte = 3 compression bits, 2 checksum bits, 3 reserved bits
 TailClasses == {"none", "short", "four", "random", "snappy", "lz4", "gzip",
@@ -89,15 +119,19 @@ Decode(e, p, c, k, u) ==
           ELSE IF ck = "crc32" /\ ~(rest[1].st = "ok" /\ ok) THEN "error"   \* ideal checksum mismatch
           ELSE IF c = "none" THEN (IF ok THEN "payload" ELSE "nocrash")
           ELSE IF ~u THEN (IF ok THEN "body" ELSE "nocrash")
-          ELSE IF ok THEN "payload"
+          ELSE IF ok THEN (IF c = "jpeg" THEN "samesize" ELSE "payload")
           ELSE IF c = "gzip" THEN "error_or_payload"                 \* gzip's own CRC-32 + length
-          ELSE "nocrash"                                             \* snappy / lz4 without a checksum
+          ELSE "nocrash"                                             \* snappy / lz4 / jpeg without a checksum
+
+\* dvid.Deserialize: the same decoder, then gob; zero bytes are the envelope of the empty payload
+\* but never the encoding of an object
+DecodeApi(a, e, p, c, k, u) == IF a = "obj" /\ e = <<>> THEN "error" ELSE Decode(e, p, c, k, u)
 
 \* What the property demands of the real code for a finished behaviour.  A changed
 \* (not truncated) checksum field leaves the payload bytes untouched: no claim.
 Expected ==
     IF row.dmg.kind \in {"bitflip", "bytesub"} /\ row.dmg.region = "crc" THEN "nocrash"
-    ELSE Decode(env, row.pc, row.comp, row.cks, row.unc)
+    ELSE DecodeApi(row.api, env, row.pc, row.comp, row.cks, row.unc)
 
 (***************************************************************************)
 (* Behaviours                                                               *)
@@ -105,15 +139,16 @@ Expected ==
 NoDamage == [kind |-> "none", region |-> "-", index |-> 0]
 
 Init == /\ phase = "new"
-        /\ row = [pc |-> "-", comp |-> "-", lvl |-> 0, cks |-> "-", dmg |-> NoDamage, unc |-> FALSE]
+        /\ row = [api |-> "-", pc |-> "-", comp |-> "-", lvl |-> 0, cks |-> "-", dmg |-> NoDamage, unc |-> FALSE]
         /\ env = <<>>
         /\ result = "pending"
 
 Serialize ==
     /\ phase = "new"
-    /\ \E p \in PayloadClasses, c \in Comps, k \in Checksums :
-         \E l \in Levels(c) :
-           /\ row' = [row EXCEPT !.pc = p, !.comp = c, !.lvl = l, !.cks = k]
+    /\ \E a \in Apis, c \in Comps, k \in Checksums :
+         \E p \in (IF a = "data" THEN PayloadClasses ELSE ObjClasses), l \in Levels(c) :
+           /\ a = "obj" => c \in Lossless             \* an object is never stored with a lossy format
+           /\ row' = [row EXCEPT !.api = a, !.pc = p, !.comp = c, !.lvl = l, !.cks = k]
            /\ env' = Layout(p, c, k)
     /\ phase' = "ser"
     /\ UNCHANGED result
@@ -131,14 +166,18 @@ Damage ==
        \/ \E i \in 1..Len(env) :                                  \* cut in front of region i
             /\ env' = SubSeq(env, 1, i - 1)
             /\ row' = [row EXCEPT !.dmg = [kind |-> "cutbefore", region |-> env[i].name, index |-> i]]
+       \/ /\ env # <<>>                                           \* extra bytes behind the serialized value
+          /\ env' = Append(env, [name |-> "trail", size |-> 0, st |-> "extra"])
+          /\ row' = [row EXCEPT !.dmg = [kind |-> "trailing", region |-> "trail", index |-> Len(env) + 1]]
     /\ phase' = "dmg"
     /\ UNCHANGED result
 
 Deserialize ==
     /\ phase = "dmg"
     /\ \E u \in BOOLEAN :
+         /\ row.api = "obj" => u                      \* dvid.Deserialize always decompresses
          /\ row' = [row EXCEPT !.unc = u]
-         /\ result' = Decode(env, row.pc, row.comp, row.cks, u)
+         /\ result' = DecodeApi(row.api, env, row.pc, row.comp, row.cks, u)
     /\ phase' = "done"
     /\ UNCHANGED env
 
@@ -165,7 +204,17 @@ TypeOK == result \in Outcomes \cup {"pending"}
 
 \* identical bytes come back for every payload class, compression, level and checksum
 Inv_C15_RoundTrip ==
-    Done /\ Undamaged /\ row.unc => result = (IF row.pc = "empty" THEN "empty" ELSE "payload")
+    Done /\ Undamaged /\ row.unc /\ row.comp \in Lossless =>
+        result = (IF row.pc = "empty" THEN "empty" ELSE "payload")
+
+\* the lossy format returns as many bytes as were given
+Inv_C15_LossySameSize ==
+    Done /\ Undamaged /\ row.unc /\ row.comp = "jpeg" =>
+        result = (IF row.pc = "empty" THEN "empty" ELSE "samesize")
+
+\* dvid.Serialize / Deserialize: an equal object comes back, for every lossless format
+Inv_C15_ObjectRoundTrip ==
+    Done /\ Undamaged /\ row.api = "obj" => row.unc /\ result = "payload"
 
 \* without decompression the stored body comes back untouched
 Inv_C15_RoundTripRaw ==
@@ -177,13 +226,29 @@ Inv_C15_RoundTripRaw ==
 PayloadRegion(r) == r \in {"size", "data"}
 Inv_C15_Detect ==
     Done /\ EffCks(row.comp, row.cks) = "crc32" /\ env # <<>> /\
-    (PayloadRegion(row.dmg.region) \/ row.dmg.kind \in {"cutinside", "cutbefore"})
+    (PayloadRegion(row.dmg.region) \/ row.dmg.kind \in {"cutinside", "cutbefore", "trailing"})
         => Expected = "error"
 
 \* gzip: its own checksum means damaged data is never returned as different data
 Inv_C15_GzipNeverWrong ==
     Done /\ row.comp = "gzip" /\ row.unc /\ ~Undamaged /\ env # <<>> /\ row.dmg.region = "data"
         => Expected \in {"error", "error_or_payload"}
+
+\* STORED VALUES: the users for which a finished behaviour is the oracle of a read
+StoredUsers ==
+    IF Done /\ row.unc /\ row.pc # "empty" /\ row.lvl = -1
+    THEN {u \in Users : UserApi(u) = row.api /\ <<row.comp, row.cks>> \in UserFormats(u)}
+    ELSE {}
+
+\* the repo metadata is written with a checksum: every damage to its stored bytes behind the
+\* format byte (checksum field changes excepted) must surface as a start-up error
+Inv_C15_RepoDetected ==
+    "repo" \in StoredUsers /\ ~Undamaged /\ row.dmg.region \notin {"fmt", "crc"} => Expected = "error"
+
+\* label indices are written with dvid.NoChecksum: detection CANNOT be claimed there, a damaged
+\* stored index may decode to anything; all that is left is that the server survives
+Inv_C15_IndexUndetected ==
+    "labelindex" \in StoredUsers /\ ~Undamaged => Expected \in {"nocrash", "empty"}   \* "empty": the whole value was cut away
 
 \* no behaviour ends in a crash: every finished behaviour has an outcome class
 Inv_C15_Total == (Done \/ phase = "arb") => result \in Outcomes /\ (Done => Expected \in Outcomes)
@@ -194,7 +259,8 @@ Inv_C15_Total == (Done \/ phase = "arb") => result \in Outcomes /\ (Done => Expe
 LayoutJson(l) == [i \in 1..Len(l) |-> [name |-> l[i].name, size |-> l[i].size]]
 
 Emit ==
-    /\ Done => PrintT(ToJson([kind |-> "row", pc |-> row.pc, comp |-> row.comp, lvl |-> row.lvl,
+    /\ Done => PrintT(ToJson([kind |-> "row", api |-> row.api, users |-> StoredUsers,
+                              pc |-> row.pc, comp |-> row.comp, lvl |-> row.lvl,
                               cks |-> row.cks, layout |-> LayoutJson(Layout(row.pc, row.comp, row.cks)),
                               dmg |-> row.dmg, unc |-> row.unc, expect |-> Expected]))
     /\ phase = "arb" => PrintT(ToJson([kind |-> "arb", compbits |-> row.compbits, cksbits |-> row.cksbits,
